@@ -13,11 +13,34 @@ static std::map<std::string, handler_t> g_handlers;
 static std::map<int, Obj> g_objs;
 static long g_line = 0;
 
+static std::map<std::string, bytes_t> g_regs;
+void reg_store(const Args &a, const bytes_t &v) {
+    // save=NAME sets register NAME, save=NAME+ appends to it
+    if (!a.has("save")) return;
+    std::string n = a.str("save");
+    if (!n.empty() && n[n.size() - 1] == '+') { n.erase(n.size() - 1); bytes_t &r = g_regs[n]; r.insert(r.end(), v.begin(), v.end()); }
+    else g_regs[n] = v;
+}
 bytes_t Args::hex(const char *k) const {
     bytes_t r;
     std::map<std::string, std::string>::const_iterator it = kv.find(k);
     if (it == kv.end() || it->second == "-") return r;
     const std::string &s = it->second;
+    if (!s.empty() && s[0] == '@') {          // @NAME or @NAME:off:len  (register written by an earlier op)
+        std::string n = s.substr(1); size_t off = 0, len = (size_t)-1;
+        size_t c1 = n.find(':');
+        if (c1 != std::string::npos) {
+            size_t c2 = n.find(':', c1 + 1);
+            off = (size_t)strtoul(n.substr(c1 + 1).c_str(), 0, 0);
+            if (c2 != std::string::npos) len = (size_t)strtoul(n.substr(c2 + 1).c_str(), 0, 0);
+            n = n.substr(0, c1);
+        }
+        if (!g_regs.count(n)) fatal("no register %s", n.c_str());
+        const bytes_t &v = g_regs[n];
+        if (off > v.size()) off = v.size();
+        if (len > v.size() - off) len = v.size() - off;
+        return bytes_t(v.begin() + off, v.begin() + off + len);
+    }
     if (s.size() % 2) fatal("odd hex for %s", k);
     for (size_t i = 0; i + 1 < s.size(); i += 2) {
         char t[3] = { s[i], s[i + 1], 0 };
@@ -158,7 +181,7 @@ extern "C" void drv_sanitizer_death(void) { fault_line("sanitizer"); }
 extern "C" void __sanitizer_set_death_callback(void (*)(void));
 #endif
 
-static void h_reset(const Args &) { obj_reset_all(); Ev("Reset").emit(); }
+static void h_reset(const Args &) { obj_reset_all(); g_regs.clear(); Ev("Reset").emit(); }
 
 int main(int argc, char **argv) {
     if (argc < 3) { fprintf(stderr, "usage: drv <plan> <trace>\n"); return 2; }
